@@ -329,4 +329,5 @@ func main() {
 	partAPIStaged(r)
 	partPdfStaged(r)
 	partWholeOps(r)
+	partMultiFill(r)
 }
